@@ -48,6 +48,7 @@ type Program struct {
 	Cfg                Config
 	runtimeErrorString types.Type
 	Stubs              map[string]*ssa.Function // qualified callee name -> harness function
+	Nops               map[string]bool          // functions given empty bodies
 	LoadSeconds        float64
 	Files              []string // source files of the target packages (for evidence)
 
